@@ -2,6 +2,9 @@ package main
 
 import (
 	"fmt"
+	"math/big"
+	"regexp"
+	"strings"
 
 	"github.com/antonmedv/expr"
 
@@ -122,6 +125,53 @@ func c02(r *report.Run) {
 		}
 		return report2(sl, e, order, nil, "")
 	})
+	// boundary constants: ranges and arithmetic at the edges of the integer range and of the budget
+	raw := []string{}
+	bounds := []string{"0", "1", "-1", "999998", "999999", "1000000", "1000001", "4611686018427387904", "9223372036854775806", "9223372036854775807", "-9223372036854775807", "-5000000000000000000", "5000000000000000000"}
+	for _, a := range bounds {
+		for _, b := range bounds {
+			raw = append(raw, fmt.Sprintf("len(%s..%s)", a, b), fmt.Sprintf("I in %s..%s", a, b), fmt.Sprintf("len(%s..%s) == 0 or (%s..%s)[0] == %s", a, b, a, b, a))
+		}
+		raw = append(raw, fmt.Sprintf("%s + 1", a), fmt.Sprintf("%s * 2", a), fmt.Sprintf("-(%s)", a), fmt.Sprintf("%s - 2", a), fmt.Sprintf("I in [%s, 1]", a), fmt.Sprintf("%s %% 7", a), fmt.Sprintf("%s / -1", a))
+	}
+	var rawRuns int64
+	for i, src := range raw {
+		for _, m := range []string{"struct", "noenv"} {
+			pN, eN := lib.Compile(src, lib.Mode{Env: m, Opt: false})
+			if eN != nil {
+				continue
+			}
+			pO, eO := lib.Compile(src, lib.Mode{Env: m, Opt: true})
+			order := int64(1)<<42 + int64(i)
+			if eO != nil {
+				if _, isPanic := eO.(*lib.PanicError); isPanic || !strings.Contains(src, "/ 0") {
+					r.Report(report.Violation{Sub: "boundary:" + m, Kind: "optimizer-rejects", Witness: c02RawShape(src), Order: order, Detail: map[string]interface{}{"source": src, "error": eO.Error()}})
+				}
+				continue
+			}
+			for _, iv := range []int{0, 1, 1000000} {
+				env := henv.Make(henv.Val{})
+				env.I = iv
+				a, ea := lib.Run(pN, *env)
+				b, eb := lib.Run(pO, *env)
+				rawRuns += 2
+				if (ea == nil) != (eb == nil) {
+					kind := "fails-only-optimized"
+					if eb == nil {
+						kind = "fails-only-unoptimized"
+					}
+					r.Report(report.Violation{Sub: "boundary:" + m, Kind: kind, Witness: c02RawShape(src), Order: order, Detail: map[string]interface{}{"source": src, "I": iv, "unoptimized": fmt.Sprint(henv.Norm(a), ea), "optimized": fmt.Sprint(henv.Norm(b), eb)}})
+					break
+				}
+				if ea == nil && henv.Norm(a) != henv.Norm(b) {
+					r.Report(report.Violation{Sub: "boundary:" + m, Kind: "value", Witness: c02RawShape(src), Order: order, Detail: map[string]interface{}{"source": src, "I": iv, "unoptimized": henv.Norm(a), "optimized": henv.Norm(b)}})
+					break
+				}
+			}
+		}
+	}
+	r.Set("boundary_constant_sources", len(raw))
+	r.Set("boundary_constant_runs", rawRuns)
 	r.Assume("differential oracle: no expected values; equality is kind-exact for numbers and element-wise for sequences (henv.Norm)")
 	r.Assume("the only compile-time rejection allowed to the optimizer is a constant integer division/modulo by zero; a ConstExpr mark may reject only a call that fails at run time unmarked")
 }
@@ -191,3 +241,31 @@ func hasFailingConstCall(e *gen.Expr, fns []string) bool {
 	})
 	return found
 }
+
+// c02RawShape abstracts the literals of a boundary source that are not special (keeps the family small).
+func c02RawShape(src string) string {
+	m := rangeRe.FindStringSubmatch(src)
+	if m == nil {
+		return src
+	}
+	lo, _ := new(big.Int).SetString(m[1], 10)
+	hi, _ := new(big.Int).SetString(m[2], 10)
+	span := new(big.Int).Sub(hi, lo)
+	span.Add(span, big.NewInt(1))
+	class := "span<1e6"
+	switch {
+	case span.Cmp(new(big.Int).Neg(new(big.Int).Lsh(big.NewInt(1), 63))) < 0:
+		class = "descending, span overflows int64"
+	case span.Sign() <= 0:
+		class = "descending"
+	case span.Cmp(new(big.Int).Lsh(big.NewInt(1), 63)) >= 0:
+		class = "span overflows int64"
+	case span.Cmp(big.NewInt(1000000)) >= 0:
+		class = "span>=1e6"
+	case span.Cmp(big.NewInt(999999)) >= 0:
+		class = "span=1e6-1"
+	}
+	return rangeRe.ReplaceAllString(src, "A..B") + " [" + class + "]"
+}
+
+var rangeRe = regexp.MustCompile(`(-?\d+)\.\.(-?\d+)`)
